@@ -120,7 +120,11 @@ func URLToClientConfig(s string) (*pb.ClientConfig, error) {
 	if u.Opaque != "" {
 		return nil, fmt.Errorf("URL is opaque")
 	}
-	b, err := base64.StdEncoding.DecodeString(s[8:]) // Remove "mieru://"
+	const prefix = "mieru://"
+	if len(s) < len(prefix) || !strings.EqualFold(s[:len(prefix)], prefix) {
+		return nil, fmt.Errorf("URL does not begin with %q", prefix)
+	}
+	b, err := base64.StdEncoding.DecodeString(s[len(prefix):])
 	if err != nil {
 		return nil, fmt.Errorf("base64.StdEncoding.DecodeString() failed: %w", err)
 	}
